@@ -136,6 +136,31 @@ def replay(pid: str, path: str) -> int:
     return checks.run_check(pid, rp.get("tier", "quick"), rp.get("seed", 0))
 
 
+def _c03_monitor(sc, c, outcome):
+    import monitors_sched as ms
+    cls = ms.c03_class(sc)
+    if cls == "C03-sparse-persistent":
+        return []          # simulators that omit persistent outputs are not API-compliant; nothing is claimed
+    out = ms.mon_c03(sc, c)
+    for v in out:
+        v["finding"] = cls
+    return out
+
+
+def _c03_replays(o, driver, rng):
+    import common, sched_corr as scorr, monitors_sched as ms
+    for f in common.known_findings()["findings"]:
+        if f["property"] != "C03":
+            continue
+        w = f["witness"]
+        sc = scorr.normalise(w["scenario"])
+        outcome, c = scorr.run_impl(sc, w["schedule_seed"])
+        o.monitor_stats["known_finding_replays"] = o.monitor_stats.get("known_finding_replays", 0) + 1
+        v = ms.mon_c03(sc, c)
+        if v:
+            o.violations.append({**v[0], "finding": f["id"], "scenario": w["scenario"], "schedule_seed": w["schedule_seed"]})
+
+
 def _c06(o, driver, rng):
     import suites_world as sw, monitors_world as mw
     suite = sw.suite_cycles(rng, o.tier)
@@ -150,3 +175,8 @@ def _c06(o, driver, rng):
 
 PROPERTIES["C06"] = {"run": _c06, "assumptions": ["two connection paths between the same simulators have the same cutoff (no path leaves a group and re-enters it): finding D7 otherwise",
                                                      "the worklist's pick (Python set.pop) is an oracle; three different oracles are compared on the model side"]}
+
+
+PROPERTIES["C03"] = {"run": _sched(_c03_monitor, extra=_c03_replays), "assumptions": SCHED_ASSUME + [
+    "at most one connection per (source entity, destination entity, destination attribute)",
+    "the refinement of whole runs to the history specification is decided by the specification monitor on implementation traces, not by a theorem; five classes of scenarios are known findings (known_findings.json)"]}
